@@ -395,35 +395,39 @@ def no_equation_is_lost_before_solving(ctx):
     ctx.check(got == want, '_prepare_sympy', 'every well-formed equation is kept, in order', '_prepare_sympy differs from its confirmed behaviour: %s' % SB.diff(got, want)[:600], f, f.node)
 
 
-@rule('C12.j', min_instances=3)
-def markers_are_restored_longest_first(ctx):
-    """solve and its helpers rename named variables to the markers _0, _1, ... and rename them back in a nested restore(); the markers are replaced textually, so _10 has to be restored before _1 (as replace_variables substitutes in descending order on the way in): every restore loop runs over the markers in descending index order, not in order of appearance"""
+def _single_pass_restore(fn, names_param):
+    """does fn restore the markers with ONE regular-expression substitution whose replacement is computed per match (a function of the match
+    that indexes the given names)?  Returns the call node or None"""
+    for c in ast.walk(fn):
+        if isinstance(c, ast.Call) and isinstance(c.func, ast.Attribute) and c.func.attr == 'sub' and len(c.args) >= 3 and isinstance(c.args[0], ast.Constant) \
+                and isinstance(c.args[0].value, str) and isinstance(c.args[1], ast.Lambda):
+            pat = c.args[0].value
+            lam = c.args[1]
+            idx = [x for x in ast.walk(lam.body) if isinstance(x, ast.Subscript) and isinstance(x.value, ast.Name) and x.value.id == names_param]
+            inloop = parent(c)
+            while inloop is not None and not isinstance(inloop, (ast.For, ast.While, ast.FunctionDef)):
+                inloop = parent(inloop)
+            if '_' in pat and ('[0-9]' in pat or '\\d' in pat) and idx and isinstance(inloop, ast.FunctionDef):
+                return c
+    return None
+
+
+@rule('C12.j', min_instances=4)
+def markers_are_restored_in_one_pass(ctx):
+    """solve and its helpers rename named variables to the markers _0, _1, ... and rename them back in a nested restore(); replace_variables does the same for a list of new names. Restoring marker by marker with str.replace re-scans text that has already been restored: _1 is found inside _10 (fixed once by restoring in descending order, repair 0ff0759) and inside a restored NAME such as a_1 (`q = p/2 - aq/2`), and with 11 or more names replace_variables turned `b + k` into `B + B0`. Every restore therefore substitutes all markers in a single regular-expression pass whose replacement is looked up per match - nothing is scanned twice"""
     m = ctx.model.modules['mystic._symbolic']
     fs = [fi for q, fi in sorted(m.funcs.items()) if fi.name == 'restore' and fi.parent is not None]
     ctx.need(len(fs) >= 3, 'expected >= 3 nested restore() helpers in _symbolic, found %d' % len(fs))
-    for fi in fs:
+    todo = [(fi, fi.args()[0]) for fi in fs] + [(ctx.func('mystic.symbolic:replace_variables'), 'markers')]
+    for fi, names_param in todo:
         ctx.touch(fi)
-        loops = [n for n in walk_no_nested(fi.node) if isinstance(n, ast.For)]
-        ctx.need(loops, '%s: replacement loop not found' % fi.qualname)
-        lp = loops[0]
-        reps = calls_where(lp, lambda c: isinstance(c.func, ast.Attribute) and c.func.attr == 'replace', include_lambda=False)
-        ctx.need(reps, '%s: no textual replacement in the loop' % fi.qualname)
-        it = T.simp(T.term(lp.iter))
-        shown = T.show(it)
-        # accepted: sorted(..., key=<decreasing in the index>) / sorted(..., reverse=True) / argsort(...)[::-1]
-        descending = False
-        if it[0] == 'call' and T.show(it[1]) == 'sorted':
-            kws = dict(it[3])
-            keyf = kws.get('key')
-            rev = kws.get('reverse') == ('const', True)
-            neg_key = keyf is not None and keyf[0] == 'lambda' and T.is_poly(keyf[3]) and any(c < 0 for mono, c in keyf[3][1]) and 'indices' in T.show(keyf[3])
-            pos_key = keyf is not None and 'indices' in T.show(keyf) and not neg_key
-            descending = neg_key or (rev and pos_key) or (rev and keyf is None and 'indices' in shown)
-        elif 'argsort' in shown and shown.rstrip(')').endswith('[::-1]'):
-            descending = True
-        ctx.check(descending, '%s#order' % fi.qualname.replace('.restore', '') + '.restore', 'markers restored in descending index order',
-                  '%s restores the markers in the order %s: when _1 comes before _10 the text of _10 has already been rewritten (11 or more named variables give a wrong solved form)'
-                  % (fi.qualname, shown[:70]), fi, lp)
+        one = _single_pass_restore(fi.node, names_param)
+        loops = [n for n in walk_no_nested(fi.node) if isinstance(n, ast.For) and
+                 calls_where(n, lambda c: isinstance(c.func, ast.Attribute) and c.func.attr == 'replace' and c.args and names_param in unparse(c), include_lambda=False)]
+        ctx.need(one is not None or loops, '%s: neither a single-pass substitution nor a marker-by-marker loop is recognised' % fi.qualname)
+        ctx.check(one is not None and not loops, '%s#single-pass' % fi.qualname, 'all markers substituted in one pass',
+                  '%s restores the markers one after the other with str.replace (%s): text restored by an earlier step is scanned again, so a marker is also found inside a longer marker or inside '
+                  'a restored name (_1 in _10, _1 in a_1)' % (fi.qualname, ' '.join(unparse(loops[0].iter).split())[:60] if loops else ''), fi, loops[0] if loops else fi.node)
 
 
 def _fold_pattern(e, names):
@@ -470,7 +474,8 @@ def _whole_name_pattern(text):
                 if len(sub) == 1 and sub[0][0] is sc.IN:
                     import re
                     cls = re.compile(text[:0] + '[' + ''.join(_cls_text(x) for x in sub[0][1]) + ']')
-                    if all(cls.match(ch) for ch in 'azAZ09_'):
+                    # letters (any alphabet), digits, underscore - and, in front of the name, the dot of an attribute access or of a number (1.e5)
+                    if all(cls.match(ch) for ch in 'azAZ09_\u00e9\u03b8' + ('.' if direction == -1 else '')):
                         return True
         return False
 
@@ -488,30 +493,52 @@ def _whole_name_pattern(text):
 
 @rule('C12.k', min_instances=1)
 def variables_are_replaced_as_whole_names(ctx):
-    """simplify / solve rename the caller's variables textually (replace_variables) before anything is parsed, for ANY variable naming: a name must only be replaced where it stands as a whole identifier - a plain str.replace also rewrites the `e` of the coefficient 1e+20 when a variable is called e (1e+20 became 1_4+20, read as 14+20) and the x of max(...). The substitution loop of replace_variables uses a regular expression that refuses a letter, digit or underscore on either side of the name (decided on the parsed pattern)"""
+    """simplify / solve rename the caller's variables textually (replace_variables) before anything is parsed, for ANY variable naming: a name must only be replaced where it stands as a whole identifier - a plain str.replace also rewrites the `e` of the coefficient 1e+20 when a variable is called e (1e+20 became 1_4+20, read as 14+20) and the x of max(...). replace_variables substitutes with a regular expression that refuses a letter, digit or underscore on either side of the name (decided on the parsed pattern) - name by name in a loop, or all names at once"""
     f = ctx.func('mystic.symbolic:replace_variables')
-    loops = [n for n in walk_no_nested(f.node) if isinstance(n, ast.For) and calls_where(n, lambda c: isinstance(c.func, ast.Attribute) and c.func.attr in ('replace', 'sub'), include_lambda=False)
-             and 'variables' in ' '.join(unparse(s) for s in n.body)]
-    ctx.need(loops, 'replace_variables: the substitution loop over the variable names is not found')
-    lp = [l for l in loops if 'markers[' not in ' '.join(unparse(s) for s in l.body)] or loops
-    lp = lp[-1]
     names = {}
     for st in ctx.model.modules['mystic.symbolic'].tree.body:
         if isinstance(st, ast.Assign) and len(st.targets) == 1 and isinstance(st.targets[0], ast.Name) and isinstance(st.value, ast.Constant) and isinstance(st.value.value, str):
             names[st.targets[0].id] = st.value
-    for st in lp.body:
-        if isinstance(st, ast.Assign) and len(st.targets) == 1 and isinstance(st.targets[0], ast.Name):
+    for st in stmts_of(f.node):
+        if isinstance(st, ast.Assign) and len(st.targets) == 1 and isinstance(st.targets[0], ast.Name) and st.targets[0].id not in names:
             names[st.targets[0].id] = st.value
-    plain = calls_where(lp, lambda c: isinstance(c.func, ast.Attribute) and c.func.attr == 'replace' and c.args and 'variables[' in unparse(c.args[0]), include_lambda=False)
-    subs = calls_where(lp, lambda c: isinstance(c.func, ast.Attribute) and c.func.attr == 'sub' and len(c.args) >= 2, include_lambda=False)
+    plain = [c for c in ast.walk(f.node) if isinstance(c, ast.Call) and isinstance(c.func, ast.Attribute) and c.func.attr == 'replace' and c.args and 'variables[' in unparse(c.args[0])]
     if plain:
         ctx.bad('replace_variables#whole-names', 'replace_variables substitutes each variable name with str.replace, i.e. wherever the characters occur: a variable called e is also replaced inside the coefficient 1e+20 '
                 '(-> 1_4+20 = 34) and x inside max(...), so simplify / solve return a different system for some variable namings', f, enclosing_stmt(plain[0]))
         return
-    ctx.need(subs, 'replace_variables: neither str.replace nor re.sub in the substitution loop')
+    # the substitution(s) over the variable names: re.sub whose pattern is built (not a constant: that is the marker restoration of C12.j)
+    subs = [c for c in ast.walk(f.node) if isinstance(c, ast.Call) and isinstance(c.func, ast.Attribute) and c.func.attr == 'sub' and len(c.args) >= 2 and
+            not isinstance(c.args[0], ast.Constant)]
+    ctx.need(subs, 'replace_variables: neither str.replace nor re.sub over the variable names')
     text = _fold_pattern(subs[0].args[0], names)
     ctx.need(text is not None, 'replace_variables: cannot fold the pattern %s to text' % unparse(subs[0].args[0])[:80])
     ok_ = _whole_name_pattern(text)
     ctx.need(ok_ is not None, 'replace_variables: pattern %r cannot be parsed' % text)
     ctx.check(ok_, 'replace_variables#whole-names', 'names are matched as whole identifiers (pattern %s)' % text,
-              'replace_variables matches the variable names with the pattern %r, which accepts a match inside a longer identifier or a number (1e+20 with a variable called e)' % text, f, enclosing_stmt(subs[0]))
+              'replace_variables matches the variable names with the pattern %r, which accepts a match inside a longer identifier (also a non-ascii one), after the dot of an attribute access, or inside a number '
+              '(1e+20 with a variable called e)' % text, f, enclosing_stmt(subs[0]))
+    lp = parent(subs[0])
+    while lp is not None and not isinstance(lp, (ast.For, ast.While, ast.FunctionDef)):
+        lp = parent(lp)
+    ctx.check(isinstance(lp, ast.FunctionDef), 'replace_variables#one-pass', 'all names are substituted in one pass',
+              'replace_variables substitutes the names one after the other: a marker written for one name is scanned again for the next, so with the names [x1, x0] and the marker x the text `x1 + x0` '
+              'becomes `x1 + x1`', f, lp if lp is not None else f.node)
+
+
+@rule('C12.l', min_instances=2)
+def a_case_without_solution_contributes_nothing(ctx):
+    """the cases simplify returns, taken together, are satisfied by exactly the points of the input: a sign case of an absolute value whose bounds contradict each other has no points, so it is dropped - it must neither be returned as None inside the tuple of cases nor be the one case that is picked when all=False. simplify therefore (1) asks absval for ALL cases whatever `all` says, (2) filters the None results before it chooses, and answers None only when every case is None"""
+    f = ctx.func('mystic.symbolic:simplify')
+    calls = calls_where(f.node, lambda c: isinstance(c.func, ast.Name) and c.func.id == 'absval', include_lambda=False)
+    ctx.need(calls, 'simplify: absval is no longer called')
+    c = calls[0]
+    # every case is requested: all=True reaches absval (literally, or through dict(kwds, all=True))
+    txt = ''.join(unparse(c).split())
+    all_cases = 'all=True' in txt
+    ctx.check(all_cases, 'simplify#all-cases', 'absval is asked for every sign case (all=True)',
+              'simplify lets absval choose ONE sign case at random before anything is simplified (%s): when the chosen case contradicts the other lines simplify returns None although the system is satisfiable' % unparse(c)[:70], f, c)
+    drops = [n for n in ast.walk(f.node) if isinstance(n, (ast.GeneratorExp, ast.ListComp)) and any(
+        isinstance(t_, ast.Compare) and isinstance(t_.ops[0], (ast.IsNot, ast.NotEq)) and isinstance(t_.comparators[0], ast.Constant) and t_.comparators[0].value is None for g in n.generators for t_ in g.ifs)]
+    ctx.check(bool(drops), 'simplify#drop-empty', 'cases without a solution (None) are filtered out before the choice',
+              'simplify hands back the None of a case without solution inside its tuple of cases (or picks it): generate_solvers(simplify(...)) then fails on a satisfiable system', f, f.node)
